@@ -84,6 +84,19 @@ def c19kv : Drv where
          -- the body as its two steps (`async_any_interleaving`): prep outside the lock, commit under it
          let s2 := Fs.commit2 (Fs.prep2 { st := s.st } e.2) e.2
          ({ s with st := s2.st, pend := s.pend.filter (fun e' => e'.1 != nat! id) }, "ok"))
+    | "sk" :: kind :: rest =>
+      -- a SYNC call (issue + body at once) under a fault kind: `c` callback's first mutating op fails, `e` failure
+      -- before the lock, `d` the directory fsync after the rename / unlink fails (`Fs.execK`, theorem faulty_history_old_or_new)
+      (match mkOp rest with
+       | none => (s, "bad-op")
+       | some op =>
+         match Fs.mutOf s.ue op with
+         | none => (s, showFsAns (Fs.step s.ue s.st op).2)
+         | some (d, b) =>
+           let i := Fs.issue s.st d b
+           let k : Fs.FKind := if kind == "c" then .cb else if kind == "e" then .early else if kind == "d" then .dirSync else .none
+           let r := Fs.execK i.1 i.2 k
+           ({ s with st := r.1 }, if r.2 then "ok" else "err io"))
     | ["axf", id, fault] =>
       -- the body under an injected I/O fault (`Fs.execF`, the function of `async_faulty_last_ok_wins` /
       -- `async_faulty_any_history`; `ai` = `Fs.issue`, so a script of ai/axf lines is an `AEv` history): result and
